@@ -204,6 +204,7 @@ var watchdogSeconds = 60
 
 func runScenario(t *testing.T, sc *Scenario) *ScenarioResult {
 	res := &ScenarioResult{}
+	seedLibraryRand(mix(sc.Seed, 4242))
 	var tr *Trace
 	doneWall := make(chan struct{})
 	// wall-clock watchdog: a mutex deadlock makes the bubble hang rather than fail
